@@ -118,14 +118,23 @@ def check(prog, run):
         ob("R-rebase", "index added back = origin of the scanned slice", okb, f"origin `{astq.src(origin, 60)}`, slice starts at `{astq.src(lo, 60) if lo is not None else 0}`", astq.src(origin, 60), fapp[0])
         # band limits
         for bound, sign, nm in ((slices[0].lower, ast.Sub, "lower"), (slices[0].upper, ast.Add, "upper")):
-            a = astq.argreduce(prog, fi, bound, astq.ARGMIN) if bound is not None else None
-            d = astq.strip_abs(prog, fi, a) if a is not None else None
-            ok = False
-            if isinstance(d, ast.BinOp) and isinstance(d.op, ast.Sub) and isinstance(d.left, ast.Name) and d.left.id == pfreq:
-                r = d.right
-                # the selected frequency: the loop variable over sel_freq, or sel_freq[k] in the index-level model
-                is_sel = lambda z: isinstance(z, ast.Name) or (isinstance(z, ast.Subscript) and isinstance(z.value, ast.Name) and z.value.id == psel)
-                ok = isinstance(r, ast.BinOp) and isinstance(r.op, sign) and isinstance(r.right, ast.Name) and r.right.id == pDF and is_sel(r.left)
+            # the limit itself, or - when it is clipped against something else (max(lo, first line of a range)) - an arg-min inside it
+            cands = [bound] if bound is not None else []
+            if bound is not None and astq.argreduce(prog, fi, bound, astq.ARGMIN) is None:
+                xb = astq.expr_at(fi, fapp[0], bound) if hasattr(astq, "expr_at") else bound
+                cands = [c_ for c_ in ast.walk(xb) if isinstance(c_, ast.Call) and astq.argreduce(prog, fi, c_, astq.ARGMIN) is not None]
+            ok = None if not cands else False
+            for cand in cands:
+                a = astq.argreduce(prog, fi, cand, astq.ARGMIN)
+                d = astq.strip_abs(prog, fi, a) if a is not None else None
+                if isinstance(d, ast.BinOp) and isinstance(d.op, ast.Sub) and isinstance(d.left, ast.Name) and d.left.id == pfreq:
+                    r = d.right
+                    # the selected frequency: the loop variable over sel_freq, or sel_freq[k] in the index-level model
+                    is_sel = lambda z: isinstance(z, ast.Name) or (isinstance(z, ast.Subscript) and isinstance(z.value, ast.Name) and z.value.id == psel)
+                    if isinstance(r, ast.BinOp) and isinstance(r.op, sign) and isinstance(r.right, ast.Name) and r.right.id == pDF and is_sel(r.left):
+                        ok = True
+                elif d is None or not isinstance(d, ast.BinOp):
+                    ok = None if ok is False else ok
             ob("R-band", f"{nm} limit = argmin |freq - (sel {'-' if sign is ast.Sub else '+'} DF)|", ok, f"`{astq.src(bound, 90) if bound is not None else None}`", astq.src(bound, 70) if bound is not None else "none", fapp[0])
     # the vector read at the same index
     vsub = [s for s in ast.walk(vapp[1]) if isinstance(s, ast.Subscript) and isinstance(s.value, ast.Name) and s.value.id == pSvec]
